@@ -110,7 +110,9 @@ def regen_tables(vharness):
     """Regenerate coq/Gen/*.v by running the implementation; returns list of changed files."""
     tmp = os.path.join(workdir(), "gen")
     os.makedirs(tmp, exist_ok=True)
-    rc, so, se = sh([vharness, "tables", tmp], timeout=300)
+    env = dict(GOENV)
+    env["VERIF_REPO"] = REPO
+    rc, so, se = sh([vharness, "tables", tmp], timeout=300, env=env)
     if rc != 0:
         raise BuildError("vharness tables failed: " + se[-2000:])
     changed = []
